@@ -87,6 +87,7 @@ func runC03(c *core.Ctx) {
 		k.Hostile = 25
 		k.Escape = true
 		k.Swap = true
+		k.BranchNames = append(k.BranchNames, oddBranchNames...)
 		k.Init()
 		// get to a state with a commit quickly in most histories
 		if w.Hist%5 != 0 {
@@ -117,6 +118,10 @@ func (C18Mon) After(w *core.World, st *core.Step) {
 	if crashed, how := st.Res.Crashed(); crashed {
 		sym := panicClass(firstPanicLine(st))
 		w.Fail("C18.panic", sym, crashTrigger(st), "%s crashed (%s): %s", st.String(), how, clipS(firstPanicLine(st), 300))
+	}
+	if strings.Contains(st.Stderr, "WARNING: DATA RACE") {
+		c.Oracle("C18.race-report")
+		w.Fail("C18.race-report", "data-race", st.Cmd(), "%s: the race detector reported a data race", st.String())
 	}
 	c.Oracle("C18.exit-code")
 	if st.Signal == "" && st.Exit != 0 && st.Exit != 1 {
@@ -179,6 +184,9 @@ func crashTrigger(st *core.Step) string {
 	return t
 }
 
+// legal single-component branch names with characters that parsers of HEAD / reflog / refs may trip over
+var oddBranchNames = []string{"a: b", "x y", "q:r", "émile", "a'b", "semi;colon", "~t", "^c", "ref: refs", "HEAD", "a b: c d", "[br]", "a(b", "日本", "-dash-inside", "tab-less"}
+
 var subcommands = []string{"init", "add", "rm", "commit", "status", "log", "reflog", "branch", "switch", "reset", "restore", "update-ref", "config", "cat-file", "hash-object", "ls-files", "rev-parse", "write-tree", "version", "help"}
 
 // garbage emits a syntactically odd command line. All of them are "constructed as invalid".
@@ -209,6 +217,11 @@ func runC18(c *core.Ctx) {
 		k.Escape = w.Hist%2 == 0
 		k.Swap = w.Hist%4 == 0
 		k.MsgClass = true
+		k.BranchNames = append(k.BranchNames, oddBranchNames...)
+		if c.GoitRace != "" && w.Hist%3 == 0 {
+			w.GoitBin = c.GoitRace // tripwire: race detector + checkptr
+			c.Count("C18.histories-on-race-binary")
+		}
 		switch w.Hist % 8 {
 		case 0: // commands before init, then fresh repository without identity
 			for i := 0; i < 4; i++ {
@@ -294,15 +307,15 @@ func stateClass(hasRepo bool, nbr int, idxp bool, nlog int) string {
 
 func init() {
 	register(&Prop{ID: "C03", Level: "exploration",
-		Rule: "seeded hostile random histories (life-cycle commands mixed with unknown/blob/tree ids to update-ref, branch names with '/', '..', separators, reflog positions in and out of range, resets after renames, '.', '.goit' as path arguments); after EVERY command an independent fsck of .goit plus an object-immutability comparison with the pre-state; distinct = (command, hostile-argument class, abstract repo state) triples observed",
-		Mons:  func() []core.Monitor { return []core.Monitor{C03Mon{}} },
-		Run:   runC03,
+		Rule:   "seeded hostile random histories (life-cycle commands mixed with unknown/blob/tree ids to update-ref, branch names with '/', '..', separators, reflog positions in and out of range, resets after renames, '.', '.goit' as path arguments); after EVERY command an independent fsck of .goit plus an object-immutability comparison with the pre-state; distinct = (command, hostile-argument class, abstract repo state) triples observed",
+		Mons:   func() []core.Monitor { return []core.Monitor{C03Mon{}} },
+		Run:    runC03,
 		Floors: []core.Floor{{Key: "C03.fsck", Min: 1000}, {Key: "cmd:update-ref", Min: 50}, {Key: "cmd:reset", Min: 50}, {Key: "cmd:branch", Min: 100}},
 	})
 	register(&Prop{ID: "C18", Level: "exploration",
-		Rule: "all sub-commands x flag combinations x argument lists (valid, missing, surplus, malformed, regexp metacharacters) on states reached by random histories incl. no repository, fresh repository, emptied snapshot, renamed branch; per command: no panic/fatal text, exit status in {0,1}, CPU <= 10 s (rusage), and for commands constructed as invalid that were refused: whole sandbox byte-identical; distinct = (sub-command, flag set, #args, invalid-class, state class) tuples",
-		Mons:  func() []core.Monitor { return []core.Monitor{C18Mon{}} },
-		Run:   runC18,
+		Rule:   "all sub-commands x flag combinations x argument lists (valid, missing, surplus, malformed, regexp metacharacters) on states reached by random histories incl. no repository, fresh repository, emptied snapshot, renamed branch; per command: no panic/fatal text, exit status in {0,1}, CPU <= 10 s (rusage), and for commands constructed as invalid that were refused: whole sandbox byte-identical; distinct = (sub-command, flag set, #args, invalid-class, state class) tuples",
+		Mons:   func() []core.Monitor { return []core.Monitor{C18Mon{}} },
+		Run:    runC18,
 		Floors: []core.Floor{{Key: "C18.panic", Min: 3000}, {Key: "C18.refused-changed", Min: 200}},
 	})
 }
